@@ -130,17 +130,21 @@ func worker(readyc <-chan *ScheduledJob, donec chan<- jobResult) {
 		currentJob  *ScheduledJob
 		exitCleanly bool
 	)
+	verifYieldW(vsWStart, readyc, nil)
 	defer func() {
 		if exitCleanly {
 			return
 		}
+		verifYieldW(vsWDiePost, readyc, currentJob)
 		donec <- jobResult{Job: currentJob, Err: errors.New("job exited unexpectedly")}
 		go worker(readyc, donec)
+		verifYieldW(vsWRespawned, readyc, nil)
 	}()
 
 	for j := range readyc {
 		res := jobResult{Job: j}
 		currentJob = j
+		verifYieldW(vsWGot, readyc, j)
 
 		if err := j.ctx.Err(); err != nil {
 			// Don't run if context already cancelled.
@@ -149,11 +153,15 @@ func worker(readyc <-chan *ScheduledJob, donec chan<- jobResult) {
 			// Don't run if marked as invalid.
 			res.Err = errJobInvalid
 		} else {
+			verifYieldW(vsWRun, readyc, j)
 			res.Err = j.run(j.ctx)
 		}
 		currentJob = nil
+		verifYieldW(vsWPost, readyc, j)
 		donec <- res
+		verifYieldW(vsWNext, readyc, nil)
 	}
+	verifYieldW(vsWExit, readyc, nil)
 	exitCleanly = true
 }
 
@@ -250,10 +258,13 @@ func (c Config) New() *Scheduler {
 		// TODO(abg): Maybe we should spawn workers on demand as
 		// needed with a maximum of N workers instead of spawning them
 		// in advance.
+		verifYieldW(vsSpStart, readyc, nil)
 		for i := 0; i < c.Concurrency; i++ {
 			go worker(readyc, donec)
+			verifYieldW(vsSpNext, readyc, nil)
 		}
 	}()
+	verifYieldW(vsNewSpawned, readyc, nil)
 
 	sched := &Scheduler{
 		enqueuec:        enqueuec,
@@ -267,6 +278,7 @@ func (c Config) New() *Scheduler {
 	// We lie to the caller about the number of goroutines. Spawn one
 	// extra goroutine for the Scheduler Loop.
 	go sched.run(c.Emitter, c.StateFlushFrequency)
+	verifYieldW(vsNewLoop, readyc, nil)
 
 	return sched
 }
@@ -322,6 +334,7 @@ func (s *Scheduler) Enqueue(ctx context.Context, j Job) *ScheduledJob {
 		run:  j.Run,
 		deps: j.Dependencies,
 	}
+	verifYieldS(vsEnqSend, s.readyc, pj)
 	s.enqueuec <- pj // panics if closed
 	return pj
 }
@@ -338,8 +351,11 @@ func (s *Scheduler) Enqueue(ctx context.Context, j Job) *ScheduledJob {
 //     its completion. Those that have no more dependencies outstanding are
 //     moved to the `ready` list.
 func (s *Scheduler) run(emitter Emitter, freq time.Duration) {
+	verifYieldS(vsLStart, s.readyc, nil)
+	defer verifYieldS(vsLExit, s.readyc, nil)
 	defer close(s.finishedc) // unblock Wait()
 	defer close(s.readyc)    // kill workers
+	defer verifYieldS(vsLPreKill, s.readyc, nil)
 
 	// Upon exit, drain enqueuec. This is necessary because the caller
 	// goroutine will roughly take the following form, where tasks begin
@@ -356,6 +372,7 @@ func (s *Scheduler) run(emitter Emitter, freq time.Duration) {
 	// to sched.Wait.
 	defer func() {
 		for range s.enqueuec {
+			verifYieldS(vsLDrain, s.readyc, nil)
 		}
 	}()
 
@@ -368,6 +385,7 @@ func (s *Scheduler) run(emitter Emitter, freq time.Duration) {
 
 		tickerC = ticker.C
 	}
+	vl := verifLoopStart(s, freq, tickerC != nil)
 
 	// Jobs ready to be thrown into the ready channel.
 	ready := list.New() // []*ScheduledJob
@@ -405,8 +423,10 @@ func (s *Scheduler) run(emitter Emitter, freq time.Duration) {
 			readyc = nil
 		}
 
+		vsel := vl.sel(s, &readyc, &enqueuec, &tickerC, ready.Len(), ongoing, pending, waiting)
 		select {
 		case readyc <- next:
+			vl.arm(vsArmDispatch, next)
 			// Remove from the ready queue only if we scheduled in
 			// this iteration.
 			ready.Remove(nextEl)
@@ -414,6 +434,7 @@ func (s *Scheduler) run(emitter Emitter, freq time.Duration) {
 			ongoing++
 
 		case job, ok := <-enqueuec:
+			vl.arm(vsArmEnqueue, job)
 			// Wait was called and the enqueue channel was closed.
 			// Make sure we never hit this branch of the select
 			// again. (A nil channel never resolves.)
@@ -448,6 +469,7 @@ func (s *Scheduler) run(emitter Emitter, freq time.Duration) {
 			}
 
 		case res := <-s.donec:
+			vl.arm(vsArmDone, res.Job)
 			job := res.Job
 			job.done = true
 
@@ -485,6 +507,7 @@ func (s *Scheduler) run(emitter Emitter, freq time.Duration) {
 			}
 
 		case <-tickerC:
+			vl.arm(vsArmTick, nil)
 			// If emitter is nil, tickerC will be a nil channel that
 			// never resolves.
 			// Note: Phab marks this line as untested, but we believe this is
@@ -499,6 +522,8 @@ func (s *Scheduler) run(emitter Emitter, freq time.Duration) {
 				},
 			)
 		}
+
+		vsel.restore(s, &enqueuec, &tickerC)
 
 		// If all enqueued jobs have been finished and no new enqueues
 		// are allowed, we can exit.
@@ -516,7 +541,9 @@ func (s *Scheduler) run(emitter Emitter, freq time.Duration) {
 //
 // No new jobs may be enqueued once Wait is called.
 func (s *Scheduler) Wait(ctx context.Context) error {
+	verifYieldS(vsWaitClose, s.readyc, nil)
 	close(s.enqueuec) // disallow new Enqueues
+	ctx = verifWaitSelect(s, ctx)
 	select {
 	case <-ctx.Done():
 		return ctx.Err()
